@@ -98,6 +98,14 @@ func Main(args []string) int {
 		}
 		DebugRespStores(p, ResolveAnchors(p))
 		return 0
+	case "dbgdyn":
+		p, err := Load(LoadConfig{Repo: args[1]})
+		if err != nil {
+			fmt.Fprintln(os.Stderr, err)
+			return 1
+		}
+		DebugDyn(p, args[2])
+		return 0
 	case "dbgstrip":
 		p, err := Load(LoadConfig{Repo: "/repo"})
 		if err != nil {
